@@ -88,6 +88,10 @@ func c01Checks(nodes map[string]c01Node, insts []c01Inst) []*api.HealthCheck {
 		tags := []string{"plain"}
 		if in.Tagged {
 			tags = []string{"plain", "urlprefix-/" + in.ID}
+			if strings.HasSuffix(in.ID, "1") {
+				// white space around a routing tag is ignored where the route command is built: it is a routing tag
+				tags = []string{"plain", "  urlprefix-/" + in.ID + " "}
+			}
 		}
 		for k, s := range in.Checks {
 			out = append(out, &api.HealthCheck{Node: in.Node, CheckID: fmt.Sprintf("service:%s:%d", in.ID, k), Status: s, ServiceID: in.ID, ServiceName: "svc-" + in.ID, ServiceTags: tags})
@@ -384,6 +388,13 @@ func c01History(c *ctx, ci int, cf c01Config, nbar int) {
 		}
 		m.nodes[n.Name] = n
 	}
+	m.nodes["node1.x"] = &fakeconsul.Node{Name: "node1.x", Address: "10.0.3.1", Serf: "passing"}
+	// from the start: two instances of one service whose node and id read the same when written with a dot in between
+	// ("node1"+"x.web-9" and "node1.x"+"web-9"); the first healthy, the second critical
+	m.svcs["node1/x.web-9"] = &c01Svc{Node: "node1", ID: "x.web-9", Name: "web", Addr: "10.1.0.91", Port: 8091, RTags: []c01Tag{{Host: "a.test", Path: "/twin-ok"}},
+		Checks: []fakeconsul.Check{{CheckID: "chk-twin-a", Status: "passing"}}}
+	m.svcs["node1.x/web-9"] = &c01Svc{Node: "node1.x", ID: "web-9", Name: "web", Addr: "10.1.0.92", Port: 8092, RTags: []c01Tag{{Host: "a.test", Path: "/twin-critical"}},
+		Checks: []fakeconsul.Check{{CheckID: "chk-twin-b", Status: "critical"}}}
 	var pushedIdx uint64
 	push := func() {
 		pushedIdx = rg.agent.Update(func(nodes map[string]*fakeconsul.Node, insts map[string]*fakeconsul.Instance) {
@@ -462,9 +473,18 @@ func c01History(c *ctx, ci int, cf c01Config, nbar int) {
 			keys := sortedKeys(m.svcs)
 			switch k := r.Intn(15); {
 			case k < 4 || len(keys) < 3: // register
-				id := fmt.Sprintf("%s-%d", choose(r, names), r.Intn(4))
+				name := choose(r, names)
+				id := fmt.Sprintf("%s-%d", name, r.Intn(4))
 				node := fmt.Sprintf("node%d", r.Intn(3))
-				sv := &c01Svc{Node: node, ID: id, Name: strings.Split(id, "-")[0], Port: 8000 + r.Intn(50)}
+				switch r.Intn(7) {
+				case 0: // two different instances whose node and id, written one after the other with a dot, read the same
+					id = fmt.Sprintf("%s-%d", name, r.Intn(2))
+					node, id = "node1", "x."+id
+				case 1:
+					id = fmt.Sprintf("%s-%d", name, r.Intn(2))
+					node = "node1.x"
+				}
+				sv := &c01Svc{Node: node, ID: id, Name: name, Port: 8000 + r.Intn(50)}
 				sv.Addr = choose(r, []string{"", "10.1.0.%d", "10.1.0.%d", "fd00::%d"})
 				if sv.Addr != "" {
 					sv.Addr = fmt.Sprintf(sv.Addr, 1+r.Intn(9))
